@@ -1,5 +1,6 @@
 import SpoxModel.Lemmas.Subgraph
 import SpoxModel.Lemmas.SubgraphNested
+import SpoxModel.Model.CallForm
 import SpoxModel.Generated.SubgraphSpecs
 import SpoxModel.Generated.CallbackSites
 import SpoxModel.Generated.CallGraphData
@@ -436,6 +437,67 @@ theorem types_arg_validated (ta : TypesArg) (cb : Nat) (beh : CbBehaviour) (w : 
       ∧ ((∀ ts, ta ≠ .ok ts) → subgraphEntry ta cb beh w = (.error .typeError, w)
           ∧ (subgraphEntry ta cb beh w).2.count cb = w.count cb) := by
   cases ta <;> simp [subgraphEntry]
+
+/-! ## Callable forms
+
+`subgraph` calls `fun(*ins)` with exactly the prescribed arguments; what Python's call accepts must be
+accepted (and invoked once with those arguments), what it rejects is a TypeError with the body never
+entered. `CallForm.accepts` is Python's binding rule for `n` positional arguments; the driver applies
+`CallForm.effective` to the signature of every callback form the harness constructs (tie H: ≈ 30 forms ×
+constructors × modules, and Python itself is asked with a dummy of the same form). -/
+
+open CallForm in
+/-- An exact-arity callable is accepted; so is every callable obtained from an accepted one by adding
+    parameters with defaults (`lambda i, c, acc, k=k: …`), keyword-only parameters that are defaulted or
+    bound, or a `*args`. -/
+theorem form_defaults_irrelevant (s : Sig) (n k : Nat) (h : accepts s n = true) :
+    accepts (exact n) n = true
+      ∧ accepts { s with npos := s.npos + k, ndef := s.ndef + k } n = true
+      ∧ accepts { s with varargs := true } n = true := by
+  have h' : s.npos - s.ndef ≤ n + s.bound ∧ (s.varargs = true ∨ n + s.bound ≤ s.npos) ∧ s.kwreq ≤ s.kwbound := by
+    simpa [accepts, and_assoc] using h
+  obtain ⟨h1, h2, h3⟩ := h'
+  refine ⟨by simp [accepts, exact], ?_, ?_⟩
+  · have a1 : s.npos + k - (s.ndef + k) ≤ n + s.bound := by omega
+    have a2 : s.varargs = true ∨ n + s.bound ≤ s.npos + k := by
+      rcases h2 with hv | hle
+      · exact Or.inl hv
+      · exact Or.inr (by omega)
+    simp [accepts, a1, a2, h3]
+  · simp [accepts, h1, h3]
+
+open CallForm in
+/-- Exactly when Python accepts: at least the required, at most all positional parameters (unless
+    `*args`), every required keyword-only parameter bound. -/
+theorem form_accepts_iff (s : Sig) (n : Nat) :
+    accepts s n = true ↔
+      s.npos - s.ndef ≤ n + s.bound ∧ (s.varargs = true ∨ n + s.bound ≤ s.npos) ∧ s.kwreq ≤ s.kwbound := by
+  simp [accepts, and_assoc]
+
+open CallForm in
+/-- The tempting pre-check `len(positional) == n` is wrong in both directions: it rejects a callback
+    with a defaulted extra parameter that Python accepts, and accepts one with a required keyword-only
+    parameter that Python rejects. -/
+theorem form_naive_check_counterexample :
+    (accepts ⟨4, 1, false, 0, 0, 0⟩ 3 = true ∧ naiveCheck ⟨4, 1, false, 0, 0, 0⟩ 3 = false)
+      ∧ (accepts ⟨3, 0, false, 1, 0, 0⟩ 3 = false ∧ naiveCheck ⟨3, 0, false, 1, 0, 0⟩ 3 = true)
+      ∧ (accepts ⟨0, 0, true, 0, 0, 0⟩ 3 = true ∧ naiveCheck ⟨0, 0, true, 0, 0, 0⟩ 3 = false) := by
+  decide
+
+open CallForm in
+/-- **Accepted forms are invoked once with the prescribed arguments; rejected forms are a TypeError
+    with the body never entered.** -/
+theorem form_call (s : Sig) (types : List Ty) (cb : Nat) (beh : CbBehaviour) (w : World) :
+    (accepts s types.length = true →
+        subgraphCallSig s types cb beh w = subgraphCall types cb beh w)
+      ∧ (accepts s types.length = false →
+        (subgraphCallSig s types cb beh w).1 = .error .typeError
+          ∧ (subgraphCallSig s types cb beh w).2.events = w.events
+          ∧ (subgraphCallSig s types cb beh w).2.count cb = w.count cb) := by
+  constructor
+  · intro h; simp [subgraphCallSig, effective, h]
+  · intro h
+    simp [subgraphCallSig, effective, h, subgraphCall, CbBehaviour.callable, World.count]
 
 /-! ## Nested control flow
 
